@@ -13,7 +13,7 @@ ML = "dsl_compiler/src/lowering/memory_lowerer.py::MemoryLowerer."
 _OPQ = ty.TOpaque("x")
 _VREF = ty.TUnion((ty.TObj("SignalRef", only=("SignalRef",)), ty.Int))
 _NODE = ty.TOpt(ty.TObj("IRNode", only=("IRDecider", "IRConst", "IRArith", "IRWireMerge"),
-                       ftypes=(("debug_metadata", ty.TRecord((("user_declared", ty.Bool),))),)))
+                       ftypes=(("debug_metadata", ty.TRecord((("user_declared", ty.Bool),))), ("signals", ty.TConcrete({})), ("value", ty.Int))))
 CAPTURE = {}
 
 
@@ -72,17 +72,31 @@ coerce = Contract(qualname=ML + "_coerce_to_signal_type", params={"self": _OPQ, 
 
 
 def _post(a, res):
+    """C03: the gates compare signal-W, so WHATEVER the condition is — absent, an integer, a folded constant on some other type, a comparison, a
+    plain signal — the enable handed to the IR is a reference ON signal-W that carries the condition's value (never a bare integer, never another type)"""
     w = CAPTURE["write"].write_enable
     if not isinstance(w, SObj):
-        return True  # integer enable: handled as a constant by the memory builder
-    node = w._fields.get("@node")
-    const_one = False
+        return False
+    lowered = CAPTURE.get("lowered", [])
+    when = lowered[1] if len(lowered) > 1 else None   # (the first lowered expression is the data)
+    cs = [w.signal_type == "signal-W"]
     if "@const_value" in w._fields:
-        const_one = w._fields["@const_value"] == 1
-    elif node is not None and isa(node, "IRConst"):
-        # only an ANONYMOUS constant 1 means "always": a declared constant is an input that can change
-        const_one = And(node.value == 1, Not(node.debug_metadata["user_declared"]))
-    return Or(const_one, w.signal_type == "signal-W")
+        # a constant put on signal-W here: the implicit 1 of an unconditional write, the integer written, or the value of an anonymous constant
+        v = w._fields["@const_value"]
+        if when is None:
+            cs.append(v == 1 if not isinstance(v, int) else z3.BoolVal(v == 1))
+        elif not isinstance(when, SObj):
+            cs.append(z3.BoolVal(v is when))
+        else:
+            node = when._fields.get("@node")
+            cs.append(z3.BoolVal(node is not None and isa(node, "IRConst") is not False and v is node.value))
+            if node is not None:
+                cs += [isa(node, "IRConst"), Not(node.debug_metadata["user_declared"])]
+    elif "@projection_of" in w._fields:
+        cs.append(z3.BoolVal(w._fields["@projection_of"] is when))
+    else:
+        cs.append(z3.BoolVal(w is when))   # the comparison itself, retyped
+    return And(*cs)
 
 
 def _requires_capture(a):
@@ -99,6 +113,7 @@ def _track(ex, a):
     v = ex.mk(_VREF, fresh_name("lowered"), register=True)
     if isinstance(v, SObj):
         CAPTURE["refs"].append(v)
+    CAPTURE.setdefault("lowered", []).append(v)
     return v
 
 
@@ -108,7 +123,8 @@ standard_write = Contract(
     qualname=ML + "_lower_standard_write",
     params={"self": ty.TObj("MemoryLowerer", only=("MemoryLowerer",)), "expr": ty.TObj("WriteExpr", only=("WriteExpr",))},
     requires=[("(reset capture)", _requires_capture)],
-    ensures=[("the enable handed to the IR is on signal-W (retyped decider, +0 projection) or is an anonymous constant 1", _post)],
+    ensures=[("the enable handed to the IR is a reference on signal-W carrying the condition: the constant (implicit 1 / integer / anonymous folded constant) put on signal-W, "
+              "the comparison retyped, or a +0 projection of any other signal", _post)],
     raises={"KeyError": None},
     uses={"ExpressionLowerer.lower_expr": lower_expr, "IRBuilder.get_operation": get_operation, "IRBuilder.arithmetic": arithmetic,
           "IRBuilder.const": const, "IRBuilder.memory_write": memory_write, "MemoryLowerer._memory_signal_type": mem_sig_type,
